@@ -146,6 +146,11 @@ def rules(ctx: Ctx) -> None:
                 v = prog.try_fold(src, N.mod, N) if isinstance(src, (ast.List, ast.Tuple, ast.Set, ast.Name, ast.Attribute)) else None
                 if isinstance(v, (list, tuple, set, frozenset)) and set(v) & {'"', "`"}:
                     quote_consts = (None, (quote_consts[1] if quote_consts else set(v)) & set(v))
+    # ... or spelled out one by one: `'"' in name or '`' in name ...`
+    direct = {prog.try_fold(k.left, N.mod, N) for k in prog.walk_fn(N) if isinstance(k, ast.Compare) and len(k.ops) == 1 and isinstance(k.ops[0], ast.In) and u(k.comparators[0]) == pname}
+    direct = {c for c in direct if isinstance(c, str) and len(c) == 1}
+    if direct & {'"', "`"}:
+        quote_consts = (None, (quote_consts[1] if quote_consts else set()) | direct)
     ctx.ob("R16.3", "quote-characters", quote_consts is not None and {'"', "`"} <= quote_consts[1], N.loc(),
            f"the normaliser knows double quotes and backticks as quote characters ({sorted(quote_consts[1]) if quote_consts else None})")
     # quoted branch: some return that does not lower-case, reached under a containment test `q in name`
